@@ -279,8 +279,11 @@ def check_point(scn, seed, point, downtime, ref_out, arn, ref_reqs=None):
     out = outcome(res, arn)
     if state["idle"] and out is not None and ref_out is not None and out != ref_out and \
             not any(f["rule"] in ("never-terminal", "terminal-twice") for f in findings):
+        # (a Map re-entered twice for one batch runs everything after it twice: with scripted workers the second pass
+        # gets other answers - the recorded map-batch-re-entered finding, seen at the outcome)
         findings.append({"property": PROP, "rule": "outcome-changed",
-                         "witness": classify_witness("outcome-changed", point, state, res) + signature(state, out),
+                         "witness": "idle:map-batch-re-entered" if res.info.get("map_reentered_twice") else
+                         classify_witness("outcome-changed", point, state, res) + signature(state, out),
                          "detail": "%s (engine idle): crash-free %r, with crash %r" % (ctx, ref_out, out)})
     if res.sim.errors and not findings:
         findings.append({"property": PROP, "rule": "engine-exception-after-restart",
@@ -648,7 +651,8 @@ def check_multi(case, seed):
             out, ref_out = outcome(res, arn), outcome(ref, ref.exec_arns.get(ename))
             if out is not None and ref_out is not None and out != ref_out:
                 findings.append({"property": PROP, "rule": "outcome-changed",
-                                 "witness": wit + (signature({"situation": sits}, out) if sits else ""),
+                                 "witness": "idle:map-batch-re-entered" if res.info.get("map_reentered_twice") else
+                                 wit + (signature({"situation": sits}, out) if sits else ""),
                                  "detail": "%s (engine idle at every crash): %s crash-free %r, with crashes %r" % (
                                      ctx, ename, ref_out, out)})
         t_end = res.sim.now - res.sim.epoch
